@@ -28,6 +28,13 @@
 (*                     NAMES are prefix-related; never linked to and without *)
 (*                     stored inputs, so their driver (quick flow) is 0 and  *)
 (*                     all four outputs are 0 (ExactModels.tla, GenZeroDriver)*)
+(*   ApplyScalingFactor  out = scale * in; the scale of node (row) r is 0   *)
+(*                     when r % 3 = 2, else r + 2: a kernel that returns   *)
+(*                     early for scale 0 leaves whatever its output array  *)
+(*                     held -- which must be zero                          *)
+(*   Lag               timeLag = 2: out(t) = state(t) for t <= 2, in(t-2)  *)
+(*                     after; the state ROW holds an ARRAY (the last two   *)
+(*                     inflows), wider than the model's list of state names*)
 (*   Muskingum         K=1, X=0, dt=2 (a1 = a2 = 1/2, a3 = 0); tot = inflow *)
 (*                     + lateral: out(t) = tot(t)/2 + tot(t-1)/2;          *)
 (*                     states S, previous total inflow, previous outflow   *)
@@ -47,9 +54,10 @@ vars == <<stage, models, ngen, links, done>>
 
 GullyKinds == {"DynamicSednetGully", "DynamicSednetGullyAlt"}
 NI(k) == CASE k = "Input" -> 1 [] k = "Sum" -> 2 [] k = "Gate" -> 2 [] k = "FixedPartition" -> 1
+           [] k = "ApplyScalingFactor" -> 1 [] k = "Lag" -> 1
            [] k = "RunoffCoefficient" -> 1 [] k = "Muskingum" -> 2 [] k = "RatingCurvePartition" -> 1 [] k \in GullyKinds -> 4
 NO(k) == IF k \in {"FixedPartition", "RatingCurvePartition"} THEN 2 ELSE IF k \in GullyKinds THEN 4 ELSE 1
-NS(k) == IF k = "Muskingum" THEN 3 ELSE 0
+NS(k) == IF k = "Muskingum" THEN 3 ELSE IF k = "Lag" THEN 2 ELSE 0
 \* input variables that links may target
 LinkableInputs(k) == IF k \in GullyKinds THEN {} ELSE 0..(NI(k) - 1)
 BIG == 1073741824
@@ -58,6 +66,8 @@ BIG == 1073741824
 Params(k, row) == CASE k = "FixedPartition" -> <<1>>
                [] k = "RunoffCoefficient" -> <<2>>
                [] k = "Muskingum" -> <<1, 0, 2>>
+               [] k = "ApplyScalingFactor" -> <<IF row % 3 = 2 THEN 0 ELSE row + 2>>
+               [] k = "Lag" -> <<2>>
                [] k = "RatingCurvePartition" -> IF row % 2 = 0 THEN <<2, 0, BIG, 1, 1>> ELSE <<3, 0, 64, BIG, 1, 1, 1>>
                [] k \in GullyKinds -> <<2000, 2010, 5, 2, 6, 25, 1, 2, 1, 50, 20, 86400>>
                [] OTHER -> <<>>
@@ -70,7 +80,9 @@ Batches(m) == [g \in 1..ngen |-> SumSeq(SubSeq(models[m].counts, 1, g))]
 
 \* stored inputs / initial states of node `row` of model m (deterministic, multiples of 16)
 Stored(m, row, j, t) == IF models[m].stored THEN 16 * (row + 1) + 32 * j + 64 * t + 256 * (m - 1) ELSE 0
-InitState(m, row, s) == IF s = 1 THEN 16 * (row + 2) ELSE 0       \* Muskingum: S=0, prevIn=16(row+2), prevOut=0
+\* Muskingum: S=0, prevIn=16(row+2), prevOut=0; Lag: the two inflows still on their way
+InitState(m, row, s) == IF models[m].kind = "Lag" THEN 8 * (row + 1) + 2 * s
+                        ELSE IF s = 1 THEN 16 * (row + 2) ELSE 0
 
 Init == /\ stage = "models" /\ models = <<>> /\ ngen = 0 /\ links = <<>> /\ done = FALSE
 
@@ -121,13 +133,16 @@ AddLink ==
 (* reference evaluation *)
 
 Half(x) == x \div 2
-Kernel(k, in, st) ==   \* in: [j -> [t -> value]] (1-based), st: sequence of states; returns [out |-> [v -> [t -> ..]], st |-> ..]
+Kernel(k, in, st, p) ==   \* p: the node's parameter column; in: [j -> [t -> value]] (1-based), st: sequence of states; returns [out |-> [v -> [t -> ..]], st |-> ..]
     CASE k = "Input" -> [out |-> <<in[1]>>, st |-> st]
       [] k = "Sum" -> [out |-> << [t \in 1..T |-> in[1][t] + in[2][t]] >>, st |-> st]
       [] k = "Gate" -> [out |-> << [t \in 1..T |-> IF in[1][t] > 0 THEN in[2][t] ELSE 0] >>, st |-> st]
       [] k \in GullyKinds -> [out |-> [v \in 1..4 |-> [t \in 1..T |-> 0]], st |-> st]
       [] k \in {"FixedPartition", "RatingCurvePartition"} -> [out |-> << [t \in 1..T |-> Half(in[1][t])], [t \in 1..T |-> Half(in[1][t])] >>, st |-> st]
       [] k = "RunoffCoefficient" -> [out |-> << [t \in 1..T |-> 2 * in[1][t]] >>, st |-> st]
+      [] k = "ApplyScalingFactor" -> [out |-> << [t \in 1..T |-> p[1] * in[1][t]] >>, st |-> st]
+      [] k = "Lag" -> LET all == st \o in[1]        \* (T >= 2)
+                      IN [out |-> << [t \in 1..T |-> all[t]] >>, st |-> <<all[T + 1], all[T + 2]>>]
       [] k = "Muskingum" ->
             LET o == [t \in 1..T |-> Half(in[1][t] + in[2][t]) + Half(IF t = 1 THEN st[2] ELSE in[1][t - 1] + in[2][t - 1])]
             IN [out |-> <<o>>, st |-> <<st[1], in[1][T] + in[2][T], o[T]>>]
@@ -153,7 +168,7 @@ RunGens(ev, g) ==
     IF g > ngen THEN ev
     ELSE LET res == [m \in 1..Len(models) |-> [r \in 1..Total(m) |->
                         IF r - 1 >= Row(m, g, 0) /\ r - 1 < Row(m, g, 0) + models[m].counts[g]
-                        THEN Kernel(models[m].kind, ev.inp[m][r], InitStates[m][r])
+                        THEN Kernel(models[m].kind, ev.inp[m][r], InitStates[m][r], Params(models[m].kind, r - 1))
                         ELSE [out |-> ev.outs[m][r], st |-> ev.fin[m][r]]]]
              outs == [m \in 1..Len(models) |-> [r \in 1..Total(m) |-> res[m][r].out]]
              fin == [m \in 1..Len(models) |-> [r \in 1..Total(m) |-> res[m][r].st]]
